@@ -469,10 +469,21 @@ func c04Foreign(c *core.Ctx, id string, i int, kind string, k1, k2 gen.KeyPair, 
 		return
 	}
 	file := filepath.Join(c.WorkDir, "c04-foreign.json")
-	env := map[string]any{"payloadType": pt, "payload": base64.StdEncoding.EncodeToString(pb), "signatures": []any{map[string]any{"keyid": k1.Pub.KeyID, "sig": base64.StdEncoding.EncodeToString(sig)}}}
+	// the DSSE protocol allows the standard and the URL-safe base64 alphabet
+	sigEnc, payEnc, encName := base64.StdEncoding, base64.StdEncoding, "standard base64"
+	switch i % 3 {
+	case 1:
+		sigEnc, encName = base64.URLEncoding, "URL-safe base64 signature"
+	case 2:
+		sigEnc, payEnc, encName = base64.URLEncoding, base64.URLEncoding, "URL-safe base64 signature and payload"
+	}
+	env := map[string]any{"payloadType": pt, "payload": payEnc.EncodeToString(pb), "signatures": []any{map[string]any{"keyid": k1.Pub.KeyID, "sig": sigEnc.EncodeToString(sig)}}}
 	eb, _ := json.Marshal(env)
 	os.WriteFile(file, eb, 0644)
-	detail := map[string]any{"payload": string(pb), "first_signer": k1.Name, "second_signer": k2.Name}
+	detail := map[string]any{"payload": string(pb), "first_signer": k1.Name, "second_signer": k2.Name, "encoding": encName}
+	if strings.ContainsAny(sigEnc.EncodeToString(sig)+payEnc.EncodeToString(pb), "-_") {
+		c.Obs("foreign_envelopes_with_url_safe_characters", 1)
+	}
 	md, err := intoto.LoadMetadata(file)
 	c.Eval(1)
 	if err != nil {
@@ -508,10 +519,17 @@ func c04Foreign(c *core.Ctx, id string, i int, kind string, k1, k2 gen.KeyPair, 
 	if json.Unmarshal(raw, &e2) != nil {
 		return
 	}
-	p2, _ := base64.StdEncoding.DecodeString(e2.Payload)
+	b64 := func(t string) []byte {
+		if b, err := base64.StdEncoding.DecodeString(t); err == nil {
+			return b
+		}
+		b, _ := base64.URLEncoding.DecodeString(t)
+		return b
+	}
+	p2 := b64(e2.Payload)
 	verified := 0
 	for _, s := range e2.Signatures {
-		sb, _ := base64.StdEncoding.DecodeString(s.Sig)
+		sb := b64(s.Sig)
 		for _, k := range []gen.KeyPair{k1, k2} {
 			if s.KeyID == k.Pub.KeyID && ref.VerifyStd(k.Public, ref.PAE(e2.PayloadType, p2), sb) == nil {
 				verified++
@@ -690,7 +708,7 @@ func init() {
 	core.Register(&core.Property{
 		ID:    "C04",
 		Level: "exploration",
-		Rule: "(1) all operation histories of length<=3 (quick) / <=4 (thorough) over {sign(k0 Ed25519), sign(k1 ECDSA P-256), sign(k2 RSA-2048), dump+load, change a signed field, sign again with the last signer, edit an element of a collection handed out by GetPayload and set the payload again} x {link, layout} x {legacy, DSSE}; after every operation each of 4 keys (3 history keys + an outsider) must verify iff it signed the current content, and every emitted signature is verified independently with crypto/* over reference bytes (reference canonical JSON / reference DSSE PAE); (2) every key kind (RSA-2048/3072, ECDSA P-224/256/384/521, Ed25519; thorough: fresh keys too) x wrapper x payload: library signs -> stdlib verifies, dump+load, stdlib signs reference bytes -> library verifies; DSSE envelope of an independent implementation (other JSON spelling of the payload) loaded, verified, signed with a second key, both signatures verified by the library and independently over the dumped payload bytes; (3) single-point mutations: every payload leaf edit/delete/insert, signature first/middle/last character, empty/doubled signature, key id edit, every other pool key, key objects with the signer's id and foreign material in both orders of use. " +
+		Rule: "(1) all operation histories of length<=3 (quick) / <=4 (thorough) over {sign(k0 Ed25519), sign(k1 ECDSA P-256), sign(k2 RSA-2048), dump+load, change a signed field, sign again with the last signer, edit an element of a collection handed out by GetPayload and set the payload again} x {link, layout} x {legacy, DSSE}; after every operation each of 4 keys (3 history keys + an outsider) must verify iff it signed the current content, and every emitted signature is verified independently with crypto/* over reference bytes (reference canonical JSON / reference DSSE PAE); (2) every key kind (RSA-2048/3072, ECDSA P-224/256/384/521, Ed25519; thorough: fresh keys too) x wrapper x payload: library signs -> stdlib verifies, dump+load, stdlib signs reference bytes -> library verifies; DSSE envelope of an independent implementation (other JSON spelling of the payload; standard or URL-safe base64 for signature / payload) loaded, verified, signed with a second key, both signatures verified by the library and independently over the dumped payload bytes; (3) single-point mutations: every payload leaf edit/delete/insert, signature first/middle/last character, empty/doubled signature, key id edit, every other pool key, key objects with the signer's id and foreign material in both orders of use. " +
 			"non-trivial = history contains a sign; distinct = (history, wrapper, payload type) / (key kind, wrapper, payload) / (mutation label...)",
 		Assumptions: []string{"Go's crypto/rsa, crypto/ecdsa, crypto/ed25519 are the trusted base (independent use, not an independent implementation)", "payloads are generated with hostile strings, a third of them with absent (nil) collections; reference bytes come from harness/ref/cjson.go"},
 		Workers:     func(string) int { return 16 },
